@@ -106,6 +106,21 @@ Definition show_match (prefix text : str) : str :=
          show_nat (length (split_args raw))
   end.
 
+(* prefix, target, K, text1..textK, commands...: K messages from nick to target *)
+Definition seq_source : str := Eval vm_compute in bs "nick".
+Definition show_seq (args : list str) : str :=
+  match args with
+  | prefix :: target :: ks :: rest =>
+    let h0 := new_handler prefix in
+    let k := nat_of_str ks in
+    let texts := firstn k rest in
+    let cargs := skipn k rest in
+    let (t, _) := add_all (h_cmds h0) (cmds_of_args (S (length cargs)) 0 cargs) in
+    let es := List.map (fun tx => mk_event (Some seq_source) PRIVMSG [target; tx]) texts in
+    join [59] (List.map show_outcome (execute_seq (mk_handler (h_prefix h0) t) es))
+  | _ => bs "?args"
+  end.
+
 Definition run_C18 (suite : str) (args : list str) : option str :=
   if streqb suite (bs "lib.lower") then
     Some (match args with s :: _ => show_opt_hex (lower_ascii_img s) | _ => bs "?args" end)
@@ -113,4 +128,5 @@ Definition run_C18 (suite : str) (args : list str) : option str :=
     Some (match args with p :: t :: _ => show_match p t | _ => bs "?args" end)
   else if streqb suite (bs "cmd.add") then Some (show_add args)
   else if streqb suite (bs "cmd.exec") then Some (show_exec args)
+  else if streqb suite (bs "cmd.seq") then Some (show_seq args)
   else None.
